@@ -3938,16 +3938,19 @@ class ProfilingDataset(Dataset):
     def __len__(self):
         return len(self.input_dataset)
 
+    @property
     def indexable(self):
-        return self.input_dataset.indexable()
+        return self.input_dataset.indexable
+
+    @property
+    def ordered(self) -> bool:
+        return self.input_dataset.ordered
 
     def keys(self):
         return self.input_dataset.keys()
 
     def __iter__(self, with_key=False):
-        if with_key:
-            raise _ItemsNotDefined(self.__class__.__name__)
-        it = iter(self.input_dataset)
+        it = self.input_dataset.__iter__(with_key=with_key)
         while True:
             start = self.timestamp()
             self.hit_count[0] += 1
